@@ -641,7 +641,8 @@ func drawEntry(rt *rapid.T) Entry {
 		e.Key = v6s[rapid.IntRange(0, len(v6s)-1).Draw(rt, "v6")]
 	case gen.MPLS:
 		// labels include the ends of the 20-bit range: 0 (explicit null) is a valid key
-		e.Key = fmt.Sprint([]uint64{100, 101, 102, 100, 101, 0, 16, 1048575}[rapid.IntRange(0, 7).Draw(rt, "mpls")])
+		// (and labels a server could report that alias small ones modulo 2^32)
+		e.Key = fmt.Sprint([]uint64{100, 101, 102, 100, 101, 0, 16, 1048575, 1<<32 + 100, 1<<32 + 16, 1 << 32}[rapid.IntRange(0, 10).Draw(rt, "mpls")])
 	default:
 		// ids include values beyond 32 bits (0 is not a valid next-hop index / group id)
 		e.Key = fmt.Sprint([]uint64{1, 2, 3, 1, 2, 1<<32 + 1, 1<<64 - 1}[rapid.IntRange(0, 6).Draw(rt, "id")])
@@ -731,6 +732,13 @@ func drawCase(rt *rapid.T) Case {
 				c.WantE = append(c.WantE, e)
 			} else {
 				c.WantE = append(c.WantE, drawEntry(rt))
+			}
+		}
+		// (a want is expressed with fluent.LabelEntry().WithLabel(uint32): labels beyond 32 bits
+		// can only occur in what the server reports)
+		for i, e := range c.WantE {
+			if e.Kind == gen.MPLS {
+				c.WantE[i].Key = fmt.Sprint((&gen.Op{Key: e.Key}).KeyNum() & 0xffffffff)
 			}
 		}
 	default:
